@@ -1194,7 +1194,16 @@ pub fn cast_validator_args(
             .map(|arg| interner.lookup_interned(&arg.to_string()))
             .unwrap_or_else(|| "_".to_string());
 
-        if !matches!(arg.tipo.get_uplc_type(), Some(UplcType::Data) | None) {
+        // A `@list` type is a user type represented as a plain list: it needs its cast too.
+        let list_decorator = lookup_data_type_by_tipo(data_types, &arg.tipo)
+            .map(|dt| {
+                dt.decorators
+                    .iter()
+                    .any(|dec| matches!(dec.kind, DecoratorKind::List))
+            })
+            .unwrap_or(false);
+
+        if list_decorator || !matches!(arg.tipo.get_uplc_type(), Some(UplcType::Data) | None) {
             term = term.lambda(&name).apply(known_data_to_type(
                 Term::var(&name),
                 &arg.tipo,
